@@ -26,7 +26,11 @@ MANIFEST = dict(
          "Matcher on the second set at the tree's depth and matches the first set against it with maxmatch and file forwarded; "
          "(7) the separation is identically 0 for identical points, in degrees, equals the great-circle formula and is computed "
          "by a small-angle-stable form (not the arc cosine of a cosine: its error 1.1e-16/theta exceeds the property's 1e-9 "
-         "degree margin below 4e-4 degrees, and radii down to 1e-6 degrees are in the quantifier).",
+         "degree margin below 4e-4 degrees, and radii down to 1e-6 degrees are in the quantifier); (8) none missing, necessary conditions: "
+         "no condition computed from the points' coordinates other than the separation test (and the latitude bound it implies) decides "
+         "whether a candidate is recorded; per-point radius and cap are not used before their assignment of the same iteration; every "
+         "loop that hands pairs to the file or the result vectors is bounded by the kept count; in the vendored cover code a two-vertex "
+         "helper applied to a triangle's vertices is applied to all three edges.",
     note="Not decided: none missing / each once for the vendored HTM library (SpatialDomain/SpatialIndex triangle cover), "
          "depth independence, rounding of cos(rad) in the cover for tiny radii. Trusted: clang AST, SWIG naming convention "
          "(proxy method arguments in C++ order), std::sort, LP64.",
@@ -38,7 +42,7 @@ H = "esutil.htm.htm."
 
 # rules that keep their verdict however the code is laid out (decided by term equality, effect analysis or dominance over
 # resolved calls); every other rule of this check is a template rule (vcheck.core.Check.obt)
-SEMANTIC = ('R12.1', 'R12.2', 'R12.4::match::every-emitted-group-is-ordered', 'R12.4::PAIR_INFO_ORDERING', 'R12.7', 'R12.8', 'R12.9')
+SEMANTIC = ('R12.1', 'R12.2', 'R12.4::match::every-emitted-group-is-ordered', 'R12.4::match::every-output-loop-keeps-maxmatch', 'R12.4::PAIR_INFO_ORDERING', 'R12.7', 'R12.8', 'R12.9')
 
 
 def run(chk):
@@ -56,6 +60,7 @@ def run(chk):
             raise AnalysisError("C++ anchor %s not found in htmc.cc" % nm)
         chk.analysed_unit("htmc.cc:" + nm)
     m = MatchFn(chk, fs["Matcher::match"])
+    m.fs = fs
     m.filter_rule()
     m.cover_rule()
     m.order_rule(fs["PAIR_INFO_ORDERING::operator()"])
@@ -65,6 +70,7 @@ def run(chk):
     python_rules(chk, repo, m)
     quadtree_rule(chk)
     fill_children_rules(chk)
+    triangle_edge_rule(chk)
 
 
 # ---------------------------------------------------------------------------
@@ -209,7 +215,18 @@ class MatchFn:
                     recv = strip(x["inner"][0]["inner"][0]) if x["inner"][0].get("inner") else {}
                     if "PAIR_INFO" in (recv.get("type", {}).get("qualType", "")):
                         pushes.append((n, x))
-        chk.ob("R12.1", "match::pair-record-sites", len(pushes) >= 1, self.where, "%d site(s) append to the per-input pair list" % len(pushes))
+        moved = []
+        if not pushes:
+            # a locator: when the record was moved into a helper that this function calls, nothing is contradicted here
+            called = {callee_name(x) for x in walk(cfront.body_of(self.decl)) if x.get("kind") in ("CallExpr", "CXXMemberCallExpr")}
+            for nm, d in sorted(getattr(self, "fs", {}).items()):
+                if d is self.decl or not cfront.has_body(d) or nm.split("::")[-1] not in called:
+                    continue
+                if any(x.get("kind") == "CXXMemberCallExpr" and callee_name(x) == "push_back" and x["inner"][0].get("inner")
+                       and "PAIR_INFO" in (strip(x["inner"][0]["inner"][0]).get("type", {}).get("qualType", "")) for x in walk(cfront.body_of(d))):
+                    moved.append(nm)
+        chk.ob("R12.1", "match::pair-record-sites", (len(pushes) >= 1) if not moved else None, self.where, "%d site(s) append to the per-input pair list%s"
+               % (len(pushes), "" if not moved else " (the record is made in the helper %s, which is not followed)" % ", ".join(sorted(set(moved)))))
         self.push_nodes = [n for n, _ in pushes]
         for n, call in pushes:
             br = [(b, lab) for b, lab in view.controlling_branches(n) if b.kind == "branch"]
@@ -238,6 +255,7 @@ class MatchFn:
             if ok is None and gvars and not any(g in ft for ft in facts for g in gvars):
                 ok = False      # a distance is computed here but no test on it controls the record
             chk.ob("R12.1", "match::record-guarded-by-distance-test", ok, self.w(n), msg)
+            self.no_coordinate_rejection(n, getattr(self, "rvar", None) if filt else None)
             if not filt:
                 continue
             # the distance
@@ -309,9 +327,118 @@ class MatchFn:
             chk.ob("R12.1", "match::record-is-(i,k,dis)", fields == want, self.w(n),
                    "the record holds (input index, member index, separation) = %s (found %s)" % (want, fields))
 
+
+    # ------------------------------------------------------------------
+    def coordinate_kinds(self):
+        """variable -> subset of {'lon', 'lat', 'dist'}: what its value is computed from.  'lon' / 'lat': an element of a longitude /
+        latitude array of either point set (ra / dec parameter, this->ra / this->dec), followed through assignments; the value of a
+        gcirc(...) call is a separation ('dist'), whatever went into it."""
+        cfg = self.cfg
+        src = {("param", self.p_ra): "lon", ("member", "ra"): "lon", ("param", self.p_dec): "lat", ("member", "dec"): "lat"}
+        kinds = {}
+
+        def of(expr):
+            out = set()
+            todo = [expr]
+            while todo:
+                x = todo.pop()
+                if not isinstance(x, dict):
+                    continue
+                if x.get("kind") == "CallExpr" and callee_name(x) == "gcirc":
+                    out.add("dist")
+                    continue
+                if x.get("kind") == "CallExpr" and callee_name(x) == "PyArray_BYTES":
+                    k = src.get(ref_desc(cfront.call_args(x)[0]))
+                    if k:
+                        out.add(k)
+                if x.get("kind") == "CallExpr" and callee_name(x) in HELPERS:
+                    ar = array_read(x)
+                    if ar is not None and src.get(ar[0]):
+                        out.add(src[ar[0]])
+                if x.get("kind") == "DeclRefExpr":
+                    out |= kinds.get(x.get("referencedDecl", {}).get("name"), set())
+                todo.extend(x.get("inner", []) or [])
+            return out
+        defs = [(v, rhs) for m in cfg.nodes for v, rhs in node_defs(m)]
+        changed = True
+        while changed:
+            changed = False
+            for v, rhs in defs:
+                k = of(rhs)
+                if not k <= kinds.get(v, set()):
+                    kinds[v] = kinds.get(v, set()) | k
+                    changed = True
+        self._kinds_of = of
+        return kinds
+
+    def no_coordinate_rejection(self, n, rvar):
+        """none missing: a candidate member that the triangle lists deliver is dropped only by the exact separation test.  Every other
+        condition on the way to the record that is computed from the coordinates of the two points is an additional filter; a
+        condition on longitudes (difference of right ascensions, scaled or not) is never implied by the separation - longitude is
+        periodic (0/360) and meaningless near a pole - so it loses pairs.  The one coordinate bound that the separation does imply
+        is on the latitudes: |dec2 - dec1| <= separation, so `fabs(dec2 - dec1) <= rad` as a necessary condition is accepted."""
+        chk, view = self.chk, self.view
+        kinds = self.coordinate_kinds()
+        of = self._kinds_of
+        bad, unknown, oklat = [], [], []
+
+        def lat_bound(e, pos):
+            e = strip(e)
+            if e.get("kind") != "BinaryOperator" or e.get("opcode") not in ("<=", ">=", "<", ">") or rvar is None:
+                return False
+            a, b = strip(e["inner"][0]), strip(e["inner"][1])
+            op = e["opcode"]
+            if render(a) == rvar:
+                a, b, op = b, a, {"<=": ">=", ">=": "<=", "<": ">", ">": "<"}[op]
+            if render(b) != rvar or (op, pos) not in (("<=", True), (">", False)):
+                return False
+            if not (a.get("kind") == "CallExpr" and callee_name(a) in ("fabs", "abs") and len(cfront.call_args(a)) == 1):
+                return False
+            d = strip(cfront.call_args(a)[0])
+            if not (d.get("kind") == "BinaryOperator" and d.get("opcode") == "-"):
+                return False
+            roles = set()
+            for side in d["inner"]:
+                sd = strip(side)
+                if sd.get("kind") != "DeclRefExpr":
+                    return False
+                dd = self.defs_at(n, render(sd))
+                rd = [array_read(r) for _, r in dd]
+                if len(rd) != 1 or rd[0] is None:
+                    return False
+                roles.add(rd[0][0])
+            return roles == {("param", self.p_dec), ("member", "dec")}
+
+        def atoms(e, pos, required):
+            e = strip(e)
+            k = e.get("kind")
+            if k == "UnaryOperator" and e.get("opcode") == "!":
+                return atoms(e["inner"][0], not pos, required)
+            if k == "BinaryOperator" and e.get("opcode") in ("&&", "||"):
+                req = required and ((e["opcode"] == "&&") == pos)
+                atoms(e["inner"][0], pos, req)
+                atoms(e["inner"][1], pos, req)
+                return
+            ks = of(e)
+            if "lon" in ks:
+                bad.append(render(e))
+            elif "lat" in ks:
+                (oklat if (required and lat_bound(e, pos)) else unknown).append(render(e))
+        for b, lab in view.controlling_branches(n):
+            if b.kind in ("branch", "loop") and isinstance(b.c, dict) and lab in ("T", "F"):
+                atoms(b.c, lab == "T", True)
+        ok = False if bad else (None if unknown else True)
+        chk.ob("R12.1", "match::only-the-separation-test-drops-a-candidate", ok, self.w(n),
+               "between the candidate lists and the record no condition computed from the points' coordinates other than the exact separation test "
+               "decides whether a candidate is kept (a latitude bound |dec2-dec1| <= rad is implied by it and accepted: %s)%s%s"
+               % (oklat or "none present",
+                  "" if not bad else " -- the record depends on the longitude test(s) %s: a difference of right ascensions is not bounded by the separation "
+                  "(ra=0/360 seam, poles), pairs within the radius are dropped" % bad,
+                  "" if not unknown else " -- latitude-dependent test(s) not recognised as implied by the separation: %s" % unknown))
     # ------------------------------------------------------------------
     def cover_rule(self):
         chk, cfg, view = self.chk, self.cfg, self.view
+        per_point_values_rule(chk, "R12.2", "match", self, self.outer_loop(), {("param", p) for p in (self.p_ra, self.p_dec, self.p_rad)})
         sets = [(n, x) for n in cfg.nodes if isinstance(n.c, dict) for x in walk(n.c) if x.get("kind") == "CXXMemberCallExpr" and callee_name(x) == "setRaDecD"]
         ok = len(sets) == 1
         # a locator: when the cap is not defined by exactly one call in this function (moved into a helper, split) nothing is contradicted
@@ -400,7 +527,8 @@ class MatchFn:
         for n in cfg.nodes:
             if isinstance(n.c, dict):
                 for x in walk(n.c):
-                    if x.get("kind") == "VarDecl" and "PAIR_INFO" in x.get("type", {}).get("qualType", "") and "vector" in x.get("type", {}).get("qualType", ""):
+                    if x.get("kind") == "VarDecl" and "PAIR_INFO" in x.get("type", {}).get("qualType", "") and "vector" in x.get("type", {}).get("qualType", "") \
+                            and "iterator" not in x.get("type", {}).get("qualType", ""):
                         pl = (n, x["name"])
         ok = pl is not None and any(b.id == lp.id and lab == "T" for b, lab in view.controlling_branches(pl[0]))
         chk.ob("R12.4", "match::pair-list-fresh-per-input", bool(ok), self.w(pl[0]) if pl else self.where, "the per-input pair list is constructed inside the input loop (nothing carries over between groups)")
@@ -455,6 +583,47 @@ class MatchFn:
             ok = ei == ["0"] and bool(sorts) and view.dominates(sorts[0], em[0])
             self.emit_loop, self.emit_var, self.pairs = em[0], ev, name
         chk.ob("R12.4", "match::emit-first-nkeep-in-sorted-order", bool(ok) if (em and sorts) else None, self.w(em[0]) if em else self.where, "the first nkeep entries of the sorted list are emitted in order")
+        # with a positive limit the result is the k closest pairs of each group WHEREVER it goes: each loop that hands pairs over
+        # (lines of the pair file, elements of the result vectors) runs over the kept count, not over the whole sorted list
+        import re as _re
+        olp, _iv = self.outer_loop()
+        sites = []
+        for n in cfg.nodes:
+            if not isinstance(n.c, dict) or not any(b.id == olp.id and lab == "T" for b, lab in view.controlling_branches(n)):
+                continue
+            for x in walk(n.c):
+                if x.get("kind") == "CallExpr" and callee_name(x) == "fprintf":
+                    sites.append((n, "fprintf"))
+                elif x.get("kind") == "CXXMemberCallExpr" and callee_name(x) == "push_back":
+                    recv = strip(x["inner"][0]["inner"][0]) if x["inner"][0].get("inner") else {}
+                    if "PAIR_INFO" not in (recv.get("type", {}).get("qualType", "")):
+                        sites.append((n, "%s.push_back" % render(recv)))
+        verdicts = []
+        for n, what in sites:
+            lps = [b for b, lab in view.controlling_branches(n) if b.kind == "loop" and lab == "T" and b.id != olp.id]
+            if not lps or kv is None:
+                verdicts.append((None, n, what, "not inside a loop over the group"))
+                continue
+            inner_most = [b for b in lps if not any(any(q.id == b.id for q, _ in view.controlling_branches(o)) for o in lps if o is not b)]
+            L = inner_most[0] if inner_most else lps[0]
+            ctext = render(L.c) if isinstance(L.c, dict) else ""
+            if _re.search(r"\b%s\b" % _re.escape(kv), ctext):
+                verdicts.append((True, n, what, ctext))
+            elif ("%s.end()" % name) in ctext or ("%s.size()" % name) in ctext:
+                cut = [m for m in cfg.nodes if isinstance(m.c, dict) and view.dominates(m, L) and any(
+                    y.get("kind") == "CXXMemberCallExpr" and callee_name(y) in ("resize", "erase") and render(y).startswith("%s." % name)
+                    and (_re.search(r"\b%s\b" % _re.escape(kv), render(y)) or self.p_max in render(y)) for y in walk(m.c))]
+                verdicts.append((True if cut else False, n, what, ctext))
+            else:
+                verdicts.append((None, n, what, ctext))
+        if sites:
+            badv = [v for v in verdicts if v[0] is False]
+            unk = [v for v in verdicts if v[0] is None]
+            chk.ob("R12.4", "match::every-output-loop-keeps-maxmatch", False if badv else (None if unk else True), self.w(badv[0][1]) if badv else self.where,
+                   "every loop that hands the pairs of a group over (to the pair file or to the result vectors) is bounded by the kept count `%s` "
+                   "(= maxmatch when 0 < maxmatch < group size)%s%s"
+                   % (kv, "" if not badv else " -- %s" % "; ".join("`%s` runs over the whole list: loop `%s`" % (w_, c_) for _, _, w_, c_ in badv[:3]),
+                      "" if not unk else " -- not recognised: %s" % "; ".join("`%s` in loop `%s`" % (w_, c_) for _, _, w_, c_ in unk[:3])))
         # every path from the collection of the pairs to their emission passes a call that ORDERS the entries emitted: a full
         # sort / stable_sort of [begin, end), or partial_sort(begin, begin + k, end) with k the kept count.  A partition
         # (nth_element) selects the k closest but leaves them in unspecified order, so a path ordered only by it is a violation.
@@ -558,6 +727,24 @@ class MatchFn:
                "result = (int64 array of input indices, int64 array of member indices, float64 array of separations), each of the counted length and filled element by element in order (%s / %s)" % (tup, stores))
 
 
+def per_point_values_rule(chk, rule, fname, f, loop_ivar, inputs):
+    """the value of a per-point input (radius, scale) and everything computed from it (search cap, logarithm) that is used for point i
+    is that of point i: inside the loop over the first-set points such a variable is not used before its assignment of the same
+    iteration (see stale_values)"""
+    lp, ivar = loop_ivar
+    res = stale_values(f.cfg, f.view, lp, ivar, lambda a: a in inputs)
+    if not res:
+        chk.ob(rule, "%s::per-point-values-are-current" % fname, True, f.where, "no variable that outlives an iteration is assigned from a per-point input inside the loop over the points")
+        return
+    for v, dnodes, stale, decided in res:
+        ok = True if not stale else (False if decided else None)
+        chk.ob(rule, "%s::per-point-value-%s-is-current" % (fname, v), ok, f.w(stale[0]) if stale else f.w(dnodes[0]),
+               "`%s` is assigned for every point (%s) but lives across iterations: each use inside the loop has to come after the assignment of the same "
+               "iteration, otherwise point i is processed with the value of point i-1%s"
+               % (v, "; ".join("`%s` at %s" % (render(d.c)[:60], f.w(d).rsplit(":", 1)[-1]) for d in dnodes),
+                  "" if not stale else " -- used before it: %s" % "; ".join("`%s` (line %s)" % (render(m.c)[:70], f.w(m).rsplit(":", 1)[-1]) for m in stale[:3])))
+
+
 def array_read_ptr(expr):
     """like array_read but for a pointer (no dereference needed)"""
     return array_read(expr)
@@ -572,6 +759,96 @@ def ref_desc_in(expr):
 
 def cfg_succ(cfg, n):
     return [(cfg.node(j), cfg.g[n.id][j]["labels"]) for j in cfg.g.successors(n.id)]
+
+
+def _declared_in(cfg, nodes):
+    """names declared (VarDecl) by the given CFG nodes"""
+    out = set()
+    for m in nodes:
+        if isinstance(m.c, dict):
+            for x in walk(m.c):
+                if x.get("kind") == "VarDecl" and x.get("name"):
+                    out.add(x["name"])
+    return out
+
+
+def loop_body(cfg, view, lp):
+    return [m for m in cfg.nodes if m.id != lp.id and any(b.id == lp.id and lab == "T" for b, lab in view.controlling_branches(m))]
+
+
+def stale_values(cfg, view, lp, ivar, is_input_array):
+    """Per-iteration values that are used before they are brought up to date.  A variable that lives across the iterations of the
+    loop `lp` (declared outside it) and is assigned inside it from element `ivar` of an input array - or from another such variable -
+    holds, at the start of iteration i, the value of iteration i-1.  Every use of it inside the loop must therefore come after the
+    assignment of the same iteration.  The assignment may be conditional on tests that cannot change during the loop (one value
+    for all points / one per point): those tests are taken as holding, i.e. the question is asked for the case in which the
+    per-iteration assignment is executed at all.
+    Returns [(variable, def nodes, stale use nodes, decided)]: decided is False when a test controlling the assignment can change
+    inside the loop (then an earlier use may be intended, e.g. a memo of the previous value, and nothing is concluded)."""
+    body = loop_body(cfg, view, lp)
+    bids = {m.id for m in body}
+    inside_decl = _declared_in(cfg, body)
+    written = set()
+    for m in body:
+        written.update(cfg.defs_uses(m)[0])
+    plain = {}
+    for m in body:
+        if m.kind != "stmt" or not isinstance(m.c, dict):
+            continue
+        c = strip(m.c)
+        if c.get("kind") == "BinaryOperator" and c.get("opcode") == "=" and strip(c["inner"][0]).get("kind") == "DeclRefExpr":
+            v = render(strip(c["inner"][0]))
+            if v not in inside_decl:
+                plain.setdefault(v, []).append((m, c["inner"][1]))
+    per = {}
+    changed = True
+    while changed:
+        changed = False
+        for v, ds in plain.items():
+            if v in per:
+                continue
+            for m, rhs in ds:
+                ar = array_read(rhs)
+                names = {x.get("referencedDecl", {}).get("name") for x in walk(rhs) if x.get("kind") == "DeclRefExpr"}
+                if (ar is not None and ar[1] == ivar and is_input_array(ar[0])) or (names & set(per)):
+                    per[v] = [d for d, _ in ds]
+                    changed = True
+                    break
+    out = []
+    for v, dnodes in sorted(per.items()):
+        guards = None
+        decided = True
+        for d in dnodes:
+            gs = set()
+            for b, lab in view.controlling_branches(d):
+                if b.kind == "branch" and b.id in bids:
+                    if set(cfg.defs_uses(b)[1]) & written:
+                        decided = False
+                    else:
+                        gs.add((b.id, lab))
+            guards = gs if guards is None else (guards & gs)
+        pruned = set()
+        for bid, lab in guards or ():
+            for j in cfg.g.successors(bid):
+                if lab not in cfg.g[bid][j]["labels"]:
+                    pruned.add((bid, j))
+        avoid = {d.id for d in dnodes} | {lp.id}
+        seen, stale = set(), []
+        todo = [j for j in cfg.g.successors(lp.id) if "T" in cfg.g[lp.id][j]["labels"]]
+        while todo:
+            i = todo.pop()
+            if i in seen or i in avoid or i not in bids:
+                continue
+            seen.add(i)
+            m = cfg.node(i)
+            dd, uu = cfg.defs_uses(m)
+            if v in uu:
+                stale.append(m)
+            if v in dd and v not in uu:
+                continue            # redefined on this path: later uses see that value
+            todo.extend(j for j in cfg.g.successors(i) if (i, j) not in pruned)
+        out.append((v, dnodes, stale, decided))
+    return out
 
 
 # ---------------------------------------------------------------------------
@@ -1094,3 +1371,150 @@ def fill_children_rules(chk, rule="R12.9"):
             okr = True
     chk.ob(rule, "fillChildren::recurses-into-all-four-stored-children", okr if recur else None, "%s:%s" % (where, fn.get("line", "?")),
            "a node with stored children recurses into childID_[0..3]")
+
+
+# ---------------------------------------------------------------------------
+def _counted_loops(fn, low):
+    """[(variable, [values it takes], ForStmt)] for the counted loops `for (T k = a; k < b; k++)` with literal bounds whose variable
+    is not written in the body: such a loop stands for its iterations (constant evaluation, no input involved)"""
+    import sympy as sp
+    out = []
+    for x in walk(cfront.body_of(fn)):
+        if x.get("kind") != "ForStmt":
+            continue
+        parts = x.get("inner", [])
+        if len(parts) < 5 or not isinstance(parts[0], dict) or parts[0].get("kind") != "DeclStmt":
+            continue
+        vd = [v for v in parts[0].get("inner", []) if v.get("kind") == "VarDecl"]
+        cond, inc = parts[2], parts[3]
+        if len(vd) != 1 or init_of(vd[0]) is None or not isinstance(cond, dict) or not isinstance(inc, dict):
+            continue
+        k = vd[0]["name"]
+        try:
+            i0 = low.expr(init_of(vd[0]))
+            c = low.expr(cond)
+        except Exception:
+            continue
+        incs = strip(inc)
+        if not (incs.get("kind") == "UnaryOperator" and incs.get("opcode") == "++" and strip(incs["inner"][0]).get("kind") == "DeclRefExpr"
+                and strip(incs["inner"][0])["referencedDecl"]["name"] == k):
+            continue
+        if not (getattr(i0, "is_Integer", False) and getattr(c, "is_Relational", False) and c.lhs == sp.Symbol(k) and getattr(c.rhs, "is_Integer", False)
+                and c.rel_op in ("<", "<=", "!=")):
+            continue
+        hi = int(c.rhs) + (1 if c.rel_op == "<=" else 0)
+        if hi < int(i0) or hi - int(i0) > 64:
+            continue
+        body_writes = [y for y in walk(parts[4]) if y.get("kind") in ("UnaryOperator", "CompoundAssignOperator", "BinaryOperator")
+                       and y.get("opcode") in ("++", "--", "=", "+=", "-=", "*=", "/=", "%=", "<<=", ">>=") and y.get("inner")
+                       and strip(y["inner"][0]).get("kind") == "DeclRefExpr" and strip(y["inner"][0])["referencedDecl"]["name"] == k] if isinstance(parts[4], dict) else [1]
+        if not body_writes:
+            out.append((k, list(range(int(i0), hi)), x))
+    return out
+
+
+def _is_vec(n):
+    return "SpatialVector" in ((n.get("type") or {}).get("qualType", "")) if isinstance(n, dict) else False
+
+
+def triangle_edge_rule(chk, rule="R12.9"):
+    """R12.9 (continued): a triangle is given to the cover code as three vertex parameters; whether a circle crosses its boundary is
+    decided edge by edge through a two-vertex helper (eSolve).  Necessary for 'none missing': wherever a function that receives the
+    three vertices of a triangle applies such a helper to two of them, it applies it to all three edges {a,b}, {b,c}, {c,a} - an edge
+    left out makes a circle that clips the triangle only across that edge invisible, and the triangle is rejected with every point
+    in it.  Decided on resolved arguments: vertex parameters directly, through single-definition aliases, or through a local table
+    initialised from the vertices and indexed by an expression that is evaluated for every iteration of a counted loop."""
+    import sympy as sp
+    decls = cfront.load_tu("spatialconvex")
+    fs = cfront.functions(decls)
+    src = "esutil/htm/htm_src/SpatialConvex.cpp"
+    seen = 0
+    done = set()
+    for name, fn in sorted(fs.items()):
+        if "::" not in name or id(fn) in done or not cfront.has_body(fn):
+            continue
+        done.add(id(fn))
+        pdecls = [p for p in fn.get("inner", []) if isinstance(p, dict) and p.get("kind") == "ParmVarDecl"]
+        verts = [p.get("name") for p in pdecls if _is_vec(p) and "&" in p["type"]["qualType"] and p.get("name")]
+        if len(verts) != 3:
+            continue
+        body = cfront.body_of(fn)
+        low = csymx.Lower(fn)
+        loops = _counted_loops(fn, low)
+        # tables and aliases of the vertices
+        written = set()
+        for x in walk(body):
+            if (x.get("kind") == "BinaryOperator" and x.get("opcode") == "=") or x.get("kind") == "CompoundAssignOperator":
+                for y in walk(x["inner"][0]):
+                    if y.get("kind") == "DeclRefExpr":
+                        written.add(y["referencedDecl"]["name"])
+                        break
+
+        def direct(e):
+            e = strip(e)
+            while isinstance(e, dict) and e.get("kind") in ("UnaryOperator", "CXXConstructExpr") and e.get("inner") and \
+                    (e.get("kind") == "CXXConstructExpr" and len(e["inner"]) == 1 or e.get("opcode") in ("&", "*")):
+                e = strip(e["inner"][0])
+            if isinstance(e, dict) and e.get("kind") == "DeclRefExpr":
+                return e["referencedDecl"]["name"]
+            return None
+        tables, alias = {}, {}
+        for x in walk(body):
+            if x.get("kind") == "VarDecl" and x.get("name") and x["name"] not in written and init_of(x) is not None:
+                it = strip(init_of(x))
+                if it.get("kind") == "InitListExpr":
+                    el = [direct(z) for z in it.get("inner", [])]
+                    if el and all(z in verts for z in el):
+                        tables[x["name"]] = el
+                elif _is_vec(x) and direct(it) in verts:
+                    alias[x["name"]] = direct(it)
+
+        def vertex(arg, sub):
+            e = strip(arg)
+            while e.get("kind") == "UnaryOperator" and e.get("opcode") in ("*", "&"):
+                e = strip(e["inner"][0])
+            if e.get("kind") == "DeclRefExpr":
+                nm = e["referencedDecl"]["name"]
+                return nm if nm in verts else alias.get(nm)
+            if e.get("kind") == "ArraySubscriptExpr":
+                b, ix = strip(e["inner"][0]), e["inner"][1]
+                if b.get("kind") == "DeclRefExpr" and b["referencedDecl"]["name"] in tables:
+                    tab = tables[b["referencedDecl"]["name"]]
+                    try:
+                        v = low.expr(ix).subs(sub)
+                    except Exception:
+                        return None
+                    if getattr(v, "is_Integer", False) and 0 <= int(v) < len(tab):
+                        return tab[int(v)]
+            return None
+        percallee = {}
+        for c in walk(body):
+            if c.get("kind") not in ("CallExpr", "CXXMemberCallExpr"):
+                continue
+            cn = callee_name(c)
+            args = cfront.call_args(c)
+            vargs = [a for a in args if _is_vec(a)]
+            if not cn or len(vargs) != 2:
+                continue
+            encl = [lv for lv in loops if any(y is c for y in walk(lv[2]))]
+            subs = [{}]
+            for k, rng, _ in encl:
+                subs = [dict(list(d.items()) + [(sp.Symbol(k), r)]) for d in subs for r in rng]
+            for sub in subs:
+                percallee.setdefault(cn, []).append(tuple(vertex(a, sub) for a in vargs))
+        for cn, pairs in sorted(percallee.items()):
+            edges = {frozenset(p) for p in pairs if None not in p and p[0] != p[1]}
+            if not edges:
+                continue            # the helper is not applied to edges of this triangle
+            seen += 1
+            chk.analysed_unit("SpatialConvex.cpp:" + name)
+            want = {frozenset(e) for e in ((verts[0], verts[1]), (verts[1], verts[2]), (verts[2], verts[0]))}
+            missing = sorted("-".join(sorted(e)) for e in want - edges)
+            unresolved = [p for p in pairs if None in p]
+            degenerate = [p for p in pairs if None not in p and p[0] == p[1]]
+            ok = True if not missing else (None if unresolved else False)
+            chk.ob(rule, "%s::%s-on-all-three-edges" % (name.split("::")[-1], cn), ok, "%s:%s" % (src, fn.get("line", "?")),
+                   "`%s` is applied to two vertices of the triangle (%s): it must be applied to all three edges%s%s"
+                   % (cn, ", ".join(verts), "" if not missing else " -- never applied to edge %s; the calls made are on %s" % (", ".join(missing), sorted("-".join(p) for p in pairs if None not in p)),
+                      "" if not degenerate else " (degenerate call on %s)" % degenerate[:2]))
+    chk.ob(rule, "triangle-edge-helpers-found", True if seen >= 1 else None, src, "%d function(s) apply a two-vertex helper to the edges of a triangle" % seen)
